@@ -34,21 +34,22 @@ def step (s : State) (toks : List String) : State × String :=
     match parseShape shapeS, nS.toNat? with
     | some shape, some n =>
       let t := Tensor.tryFrom shape (List.range n)
-      let okS := if kind = "from" then "ok" else "ok"
       let errS := if kind = "from" then "panic(explicit)" else "err"
-      ({ tensor := t, access := none }, if t.isSome then okS else errS)
+      ({ tensor := t, access := none },
+        both (if decide (Spec.Accepts shape n) then "ok" else errS)
+             (if t.isSome then "ok" else errS))
     | _, _ => (s, "bad-op")
   | "index_by" :: namesS :: _ =>
     match s.tensor with
     | none => (s, "no-tensor")
     | some t =>
       let names := parseNames namesS
+      let specS := if decide (Spec.IsOrdering t.shape names)
+        then s!"ok shape={showShape (Spec.shapeFor t.shape names)}" else "reject"
       match t.indexBy names with
       | some a =>
-        let specShape := Spec.shapeFor t.shape names
-        ({ s with access := some a, names := names },
-          both s!"ok shape={showShape specShape}" s!"ok shape={showShape a.shape}")
-      | none => ({ s with access := none }, "reject")
+        ({ s with access := some a, names := names }, both specS s!"ok shape={showShape a.shape}")
+      | none => ({ s with access := none }, both specS "reject")
   | "get" :: idxS :: _ =>
     match s.access, parseNatList idxS with
     | some a, some idx =>
